@@ -198,39 +198,55 @@ func fetchCheckpoint(runIds []string, cli client.Redis, db int, checkpointName s
 	} else {
 
 		replyList := reply.([]interface{})
-		// read line by line and parse the offset
-		for i := 0; i < len(replyList); i += 2 {
+		// read line by line and parse the offset; the hash may hold the fields of both run ids
+		// (e.g. after an interrupted run id update), so keep one record per id
+		recs := make(map[string]*CheckpointInfo, 2)
+		for i := 0; i+1 < len(replyList); i += 2 {
 			lineS, _ := common.String(replyList[i], nil)
 
-			matchId := strings.HasPrefix(lineS, runIds[0])
-			if !matchId && len(runIds) > 1 {
-				matchId = strings.HasPrefix(lineS, runIds[1])
+			matchId := ""
+			for _, rid := range runIds {
+				if rid != "" && strings.HasPrefix(lineS, rid) {
+					matchId = rid
+					break
+				}
 			}
-			if matchId {
-				if strings.Contains(lineS, CheckpointOffsetSuffix) {
-
-					cpi.Offset, err = common.Int64(replyList[i+1], nil)
-					if err != nil {
-						return nil, fmt.Errorf("parse offset(%v) of checkpoint(%s) error : error(%w), runid(%v)",
-							replyList[i+1], checkpointName, err, runIds)
-					}
+			if matchId == "" {
+				continue
+			}
+			rec := recs[matchId]
+			if rec == nil {
+				rec = &CheckpointInfo{Key: checkpointName, RunId: "?", Offset: -1}
+				recs[matchId] = rec
+			}
+			if strings.Contains(lineS, CheckpointOffsetSuffix) {
+				rec.Offset, err = common.Int64(replyList[i+1], nil)
+				if err != nil {
+					return nil, fmt.Errorf("parse offset(%v) of checkpoint(%s) error : error(%w), runid(%v)",
+						replyList[i+1], checkpointName, err, runIds)
 				}
-				if strings.Contains(lineS, CheckpointRunIdSuffix) {
-					cpi.RunId, err = common.String(replyList[i+1], nil)
-					if err != nil {
-						return nil, err
-					}
+			}
+			if strings.Contains(lineS, CheckpointRunIdSuffix) {
+				rec.RunId, err = common.String(replyList[i+1], nil)
+				if err != nil {
+					return nil, err
 				}
-				if strings.Contains(lineS, CheckpointVersionSuffix) {
-					cpi.Version, _ = common.String(replyList[i+1], nil)
+			}
+			if strings.Contains(lineS, CheckpointVersionSuffix) {
+				rec.Version, _ = common.String(replyList[i+1], nil)
+			}
+			if strings.Contains(lineS, CheckpointMtimeSuffix) {
+				rec.Mtime, err = common.Int64(replyList[i+1], nil)
+				if err != nil {
+					return nil, fmt.Errorf("parse mtime(%v) of checkpoint(%s) error : error(%w), runid(%v)",
+						replyList[i+1], checkpointName, err, runIds)
 				}
-				if strings.Contains(lineS, CheckpointMtimeSuffix) {
-					cpi.Mtime, err = common.Int64(replyList[i+1], nil)
-					if err != nil {
-						return nil, fmt.Errorf("parse mtime(%v) of checkpoint(%s) error : error(%w), runid(%v)",
-							replyList[i+1], checkpointName, err, runIds)
-					}
-				}
+			}
+		}
+		// the newest position wins, independent of the field order of the reply
+		for _, rid := range runIds {
+			if rec := recs[rid]; rec != nil && rec.RunId != "?" && (cpi.RunId == "?" || rec.Offset > cpi.Offset) {
+				cpi = rec
 			}
 		}
 	}
